@@ -17,6 +17,7 @@ import (
 	"fmt"
 	"os"
 	"sort"
+	"strings"
 
 	"github.com/woodsbury/jmespath/internal/simrt"
 )
@@ -43,6 +44,8 @@ func main() {
 		cmdOracle(os.Args[2:])
 	case "gen":
 		cmdGen(os.Args[2:])
+	case "hotprobe":
+		cmdHotProbe(os.Args[2:])
 	case "orch":
 		cmdOrch(os.Args[2:])
 	default:
@@ -352,6 +355,7 @@ type ReplayFile struct {
 	Seed      uint64     `json:"verif_seed"`
 	Note      string     `json:"note,omitempty"`
 	RaceText  string     `json:"race_report,omitempty"`
+	HotKinds  string     `json:"hot_kinds,omitempty"` // restriction of the hot index space in force when found (needed by prefix replays)
 }
 
 // cmdReplay executes one explicit workload. Exit 1 (or 66 in a race build
@@ -487,4 +491,34 @@ func cmdGen(args []string) {
 			fmt.Printf("%d\t%s\t%s\n", i, m, e.Text)
 		}
 	}
+}
+
+// cmdHotProbe: which run shapes of the hot index space touch shared state of
+// the repository at all? Every shape is executed a few times with its clients
+// one after the other; a shape counts when a yield next to a shared-state
+// access was executed inside the simulation. Prints the shapes, comma
+// separated, on one line "HOT-KINDS <list>".
+func cmdHotProbe(args []string) {
+	fs := flag.NewFlagSet("hotprobe", flag.ExitOnError)
+	seed := fs.Uint64("seed", 1, "VERIF_SEED")
+	fs.Parse(args)
+	st := newStats()
+	var hit []string
+	for ki, kind := range HotKinds() {
+		var d uint64
+		for i := uint64(0); i < 4 && d == 0; i++ {
+			w := genC07(*seed, HotBase+uint64(ki)*1000+i, kind)
+			w.Sched = simrt.Schedule{Kind: simrt.StratExplicit, Seed: 1}
+			h0 := simrt.HotYields
+			rep := runWorkload(w, st, 50_000_000)
+			if rep.Viol != nil || rep.Inconclusive != "" {
+				// not the probe's business: the search proper will meet it
+			}
+			d += simrt.HotYields - h0
+		}
+		if d > 0 {
+			hit = append(hit, kind)
+		}
+	}
+	fmt.Println("HOT-KINDS " + strings.Join(hit, ","))
 }
